@@ -355,10 +355,12 @@ static const rtosc_print_options PRINT_OPTS[3] = {{true, 2, " ", 80, 1}, {true, 
 
 // full check of one text against its denotation; reprint: also print(scan(text)) -> scan -> equal values
 struct Verdict { Clause c = OK; std::string detail; };
-static Verdict check_text(const std::string &text, const List &den, bool approx, bool msg, bool reprint)
+// msg: 0 bare argument values, 1 behind the address "/p", 2 like 1 with a comment line (longer than the address buffer) in front
+static const char *LEAD = "% a comment line in front of the message, as in the examples of the manual\n";
+static Verdict check_text(const std::string &text, const List &den, bool approx, int msg, bool reprint)
 {
     Verdict v;
-    Scan s = scan_text(msg ? "/p " + text : text, msg, "/p");
+    Scan s = scan_text(msg == 2 ? LEAD + ("/p " + text) : msg ? "/p " + text : text, msg != 0, "/p");
     if(s.c != OK) { v.c = s.c; v.detail = s.detail; return v; }
     size_t k;
     if(!same_den(den, s.X, approx, &k)) {
@@ -402,7 +404,7 @@ static bool g_stop = false;
 static uint64_t g_top = 0;
 static std::string g_done;
 
-struct Case { std::vector<const Item *> items; std::vector<int> dev; bool msg; };
+struct Case { std::vector<const Item *> items; std::vector<int> dev; int msg; };
 static Verdict run(const Case &c, bool reprint, std::string *text_out = nullptr)
 {
     Sentence s; s.items = c.items; s.build();
@@ -436,22 +438,36 @@ static void report(const std::string &cid, const Case &c0, const Verdict &v0, bo
     Case c = sub(a, b);
     const Clause cl = run(c, reprint).c;
     auto still = [&](const Case &x) { return run(x, reprint).c == cl; };
-    { Case x = c; x.msg = false; if(c.msg && still(x)) c = x; }
+    { Case x = c; x.msg = 1; if(c.msg == 2 && still(x)) c = x; }
+    { Case x = c; x.msg = 0; if(c.msg && still(x)) c = x; }
     { Case x = c; x.dev = no_dev(c.items); if(x.dev != c.dev && still(x)) c = x; }
     // single deviations that are not needed
     for(size_t g = 0; g < c.dev.size(); ++g) if(c.dev[g] >= 0) { Case x = c; x.dev[g] = -1; if(still(x)) c = x; }
+    // does it depend on the values at all? (the plainest sentence "0" in the same surroundings)
+    bool any_values = false;
+    { Case x; x.items = {&ITEMS[1]}; x.msg = c.msg; if(run(x, false).c == cl && !(c.items.size() == 1 && c.items[0] == &ITEMS[1])) { c = x; any_values = true; } }
     std::string text; Verdict v = run(c, reprint, &text);
     Sentence s; s.items = c.items; s.build();
-    std::string shape = s.kinds();
+    std::string shape = any_values ? "any-values" : s.kinds();
+    if(v.c == REPRINT && c.items.size() >= 2) {
+        // print -> scan of the scanned values fails only in this company: what stands left of the last item mostly
+        // decides the column; only time stamps (whose scanning looks ahead) are named, other neighbours are '*'
+        shape.clear();
+        for(size_t i = 0; i < c.items.size(); ++i) {
+            std::string k = Sentence::coarse(c.items[i]->kind);
+            if(i + 1 < c.items.size() && k.compare(0, 2, "t:") != 0) k = "*";
+            shape += (i ? "," : "") + k;
+        }
+    }
     for(size_t g = 0; g < c.dev.size(); ++g) if(c.dev[g] >= 0) shape += std::string("+") + dev_name(s.gap[g], c.dev[g]) + "@" + gap_name(s.gap[g]);
-    std::string sig = std::string(CLAUSE[v.c]) + "|" + (c.msg ? "message" : "arg_vals") + "|" + shape;
+    std::string sig = std::string(CLAUSE[v.c]) + "|" + (c.msg == 2 ? "message-behind-comment-line" : c.msg ? "message" : "arg_vals") + "|" + shape;
     if(v.c == OK) sig = std::string("unstable|") + CLAUSE[v0.c];
     auto &vi = vp::ctx().viol;
     auto it = vi.find(sig);
     if(it != vi.end() && it->second.cases.size() >= 3) { it->second.count++; return; }
     std::string t0; run(c0, false, &t0);
-    vp::violation(sig, cid, std::string(CLAUSE[v0.c]) + ": " + v0.detail + "; text=<" + vp::show(t0) + ">" + (c0.msg ? " behind address /p" : "") + "; denotes " + pf::show(full.den) +
-                  "; REDUCED TO text=<" + vp::show(text) + ">" + (c.msg ? " behind address /p" : "") + " denoting " + pf::show(s.den) + " => " + CLAUSE[v.c] + ": " + v.detail);
+    vp::violation(sig, cid, std::string(CLAUSE[v0.c]) + ": " + v0.detail + "; text=<" + vp::show(t0) + ">" + (c0.msg == 2 ? " behind a comment line and address /p" : c0.msg ? " behind address /p" : "") + "; denotes " + pf::show(full.den) +
+                  "; REDUCED TO text=<" + vp::show(text) + ">" + (c.msg == 2 ? " behind a comment line and address /p" : c.msg ? " behind address /p" : "") + " denoting " + pf::show(s.den) + " => " + CLAUSE[v.c] + ": " + v.detail);
 }
 
 // one sentence: base text, deviation variants, message form; id = fam:idx:variant
@@ -471,8 +487,8 @@ static void do_sentence(const char *fam, uint64_t idx, const std::vector<const I
     std::vector<size_t> gaps;
     { size_t g = 0; for(size_t i = 0; i < items.size(); ++i) { for(size_t t = 1; t < items[i]->tok.size(); ++t, ++g) if(inner_gaps) gaps.push_back(g); if(i + 1 < items.size()) gaps.push_back(g++); } }
     uint64_t variant = 0;
-    auto one = [&](const std::vector<int> &dev, bool msg, bool reprint, int ndev) {
-        std::string cid = prefix + std::to_string(variant++) + (msg ? "m" : "");
+    auto one = [&](const std::vector<int> &dev, int msg, bool reprint, int ndev) {
+        std::string cid = prefix + std::to_string(variant++) + (msg == 2 ? "c" : msg ? "m" : "");
         if(!vp::want(cid)) return;
         vp::current_case() = cid;
         vp::eval();
@@ -480,21 +496,22 @@ static void do_sentence(const char *fam, uint64_t idx, const std::vector<const I
         std::string text;
         Verdict v = run(c, reprint, vp::replaying() ? &text : nullptr);
         vp::trace();
-        if(vp::replaying()) fprintf(stderr, "replay %s: text=<%s>%s\n  denotes %s\n  verdict: %s %s\n", cid.c_str(), vp::show(text).c_str(), msg ? " behind /p" : "", pf::show(s.den).c_str(), CLAUSE[v.c], v.detail.c_str());
-        static std::string lab; lab = fam; lab += "|dev="; lab += (char)('0' + ndev); lab += msg ? "|msg|" : "|args|"; lab += CLAUSE[v.c];
+        if(vp::replaying()) fprintf(stderr, "replay %s: text=<%s>%s\n  denotes %s\n  verdict: %s %s\n", cid.c_str(), vp::show(text).c_str(), msg == 2 ? " behind a comment line and /p" : msg ? " behind /p" : "", pf::show(s.den).c_str(), CLAUSE[v.c], v.detail.c_str());
+        static std::string lab; lab = fam; lab += "|dev="; lab += (char)('0' + ndev); lab += msg == 2 ? "|msg+comment|" : msg ? "|msg|" : "|args|"; lab += CLAUSE[v.c];
         vp::outcome(lab);
         if(v.c != OK) report(cid, c, v, reprint);
     };
     std::vector<int> dev(G, -1);
-    one(dev, false, true, 0);
-    one(dev, true, false, 0);
+    one(dev, 0, true, 0);
+    one(dev, 1, false, 0);
+    if(items.size() <= 2) one(dev, 2, false, 0);
     if(maxdev >= 1) for(size_t x : gaps) for(size_t k = 0; k < devs(s.gap[x]).size(); ++k) {
-        dev[x] = (int)k; one(dev, false, false, 1);
-        if(maxdev >= 2) for(size_t y : gaps) if(y > x) for(size_t l = 0; l < devs(s.gap[y]).size(); ++l) { dev[y] = (int)l; one(dev, false, false, 2); dev[y] = -1; }
+        dev[x] = (int)k; one(dev, 0, false, 1);
+        if(maxdev >= 2) for(size_t y : gaps) if(y > x) for(size_t l = 0; l < devs(s.gap[y]).size(); ++l) { dev[y] = (int)l; one(dev, 0, false, 2); dev[y] = -1; }
         dev[x] = -1;
     }
-    // a message with a comment line in front and a deviation between address and first value
-    if(maxdev >= 1 && G) { dev[gaps.empty() ? 0 : gaps[0]] = 0; one(dev, true, false, 1); dev[gaps.empty() ? 0 : gaps[0]] = -1; }
+    // a message with a deviation at the first boundary
+    if(maxdev >= 1 && !gaps.empty()) { dev[gaps[0]] = 0; one(dev, 1, false, 1); dev[gaps[0]] = -1; }
     vp::outcome("kinds:" + (items.size() == 1 ? items[0]->kind : std::string(items.size() == 2 ? "pair" : "longer")));
     if(top % 4001 == 0) vp::sample(std::string(fam) + ": <" + vp::show(s.text({})) + ">  denotes  " + pf::show(s.den), 8);
 }
@@ -573,7 +590,7 @@ int main(int argc, char **argv)
                 Scan s = scan_text(e.text, true, nullptr);
                 v.c = s.c; v.detail = s.detail; size_t k;
                 if(s.c == OK && !same_den(e.den, s.X, e.approx, &k)) { v.c = VALUE; v.detail = "value " + std::to_string(k) + " differs: scanned " + pf::show(s.X); }
-            } else v = check_text(e.text, e.den, e.approx, false, true);
+            } else v = check_text(e.text, e.den, e.approx, 0, true);
             vp::trace();
             if(vp::replaying()) fprintf(stderr, "replay %s: verdict: %s %s\n", cid.c_str(), CLAUSE[v.c], v.detail.c_str());
             vp::outcome(std::string("manual|") + CLAUSE[v.c]);
